@@ -22,6 +22,14 @@ if _src not in sys.path:
 
 import plumpy  # noqa: E402,F401
 
+# Class-level state of the state machine (states map, `sealed`) is built lazily, per class: build it for the BASE class before
+# any generated subclass is used, as a program does that ran a plain plumpy.Process first (state left over from an earlier,
+# unrelated operation must not change what a subclass does).
+try:
+    plumpy.Process.get_states_map()
+except Exception:  # noqa
+    pass
+
 
 class DetLoop(asyncio.SelectorEventLoop):
     """`step_one()` runs the FIFO head of the ready queue and nothing else; the harness decides what happens in between."""
